@@ -425,7 +425,8 @@ def _workload(tier, rng, shard, nshards, work=None):
         ents = []
         i = 0
         while i + 1 < len(pts):
-            ents.append((pts[i] / rate, pts[i + 1] / rate, "e%d" % len(ents)))
+            # (a tier read with includeEmptyIntervals=True also stores its unlabelled stretches as entries)
+            ents.append((pts[i] / rate, pts[i + 1] / rate, "" if rng.random() < 0.2 else "e%d" % len(ents)))
             i += rng.choice((1, 2))
         if k % 4 == 3 and ents and ents[-1][1] < dur:
             # the textgrid covers the recording, every tier ends with its last entry (tiers built from their entries only)
